@@ -74,6 +74,20 @@ def observe(lib, cases):
                 getattr(h.p, how)(ev, getattr(g, m))
             for ev, m in (('callCellValue', 'cell'), ('callRangeValue', 'rng'), ('callVariable', 'var'), ('callFunction', 'fn')):
                 h.p.off(ev, getattr(g, m))
+        if c.get('prefail'):
+            # earlier on this parser the listeners failed (after handing over their values) on this very formula and on each of
+            # its references alone: nothing of that is left when the formula is evaluated now
+            def boom(hh, payload):
+                raise RuntimeError('listener failed')
+            h.hooks = {k: boom for k in ('cell:post', 'range:post', 'var:post', 'fn:post')}
+            h.frames.append([[], []])
+            try:
+                h.p.parse(text)
+                for r in refs_of(c['ast'], []):
+                    h.p.parse(F.render(r))
+            finally:
+                h.frames.pop()
+            h.hooks = {}
         if c.get('nest'):
             # every listener, after handing its values to the setter, evaluates another formula on the same
             # parser (a sheet following a formula cell, a validation rule): "whatever the listeners do"
@@ -86,7 +100,7 @@ def observe(lib, cases):
             h.hooks = {k: nested for k in ('cell:post', 'range:post', 'var:post', 'fn:post')}
         o = h.parse(text, again=len(obs) % 4 == 3)
         o.update({'id': len(obs) + 1, 'ast': c['ast'], 'env': c['env'], 'formula': text, 'nest': bool(c.get('nest')),
-                  'unsub': bool(c.get('unsub')),
+                  'unsub': bool(c.get('unsub')), 'prefail': bool(c.get('prefail')),
                   'checks': ['events', 'calls'] if array_meets_array(c['ast'], c['env']) else ['value', 'events', 'calls']})
         obs.append(o)
     return obs
@@ -183,7 +197,7 @@ def main(tier, replay=None):
     run.assumptions = ['listeners return normally (a third of them after evaluating another formula on the same parser)', 'labels have positive rows without leading zeros']
     if replay:
         c = json.load(open(replay))['case']
-        obs = observe(lib, [{'ast': c['ast'], 'env': c['env'], 'nest': c.get('nest'), 'unsub': c.get('unsub')}])
+        obs = observe(lib, [{'ast': c['ast'], 'env': c['env'], 'nest': c.get('nest'), 'unsub': c.get('unsub'), 'prefail': c.get('prefail')}])
         v = core.validate_obs(run, 'Trace_Eval', obs, 'replay', consts)
         core.tally(run, obs, v, 'c10', key=lambda o: o['formula'] + json.dumps(o['env'], sort_keys=True))
         return run.finish()
@@ -201,6 +215,7 @@ def main(tier, replay=None):
     for i, c in enumerate(cases):
         c['nest'] = i % 3 == 1
         c['unsub'] = i % 5 == 2
+        c['prefail'] = i % 7 == 3
     obs = observe(lib, cases)
     run.extra['with_nested_evaluation_in_listeners'] = sum(1 for o in obs if o['nest'])
     CH = 25000
